@@ -237,6 +237,7 @@ type Env struct {
 	unixTime   int64
 	moduleAddr sdk.AccAddress
 	lastPanic  string
+	lastPanicSite string // innermost module function on the stack of the last recovered panic
 	dead       bool
 	evDigest   []byte
 	lastErr    string
